@@ -336,7 +336,8 @@ func jsonCase(c *fw.Ctx, t jsonType) {
 	if t.unmarshalWire(wire, m) != nil {
 		return
 	}
-	indent := []string{"", "", "  ", "\t", "    "}[r.Intn(5)]
+	// legal indentation strings: any mix of spaces and tabs, one or several characters
+	indent := []string{"", "", "  ", "\t", "    ", " ", "\t\t", " \t", "\t ", "  \t", "\t  \t"}[r.Intn(11)]
 	enumNumbers, zero := r.Intn(2) == 0, r.Intn(2) == 0
 	desc := map[string]interface{}{"type": t.name, "wire": trunc(fmt.Sprintf("%x", wire), 300), "indent": indent, "enumNumbers": enumNumbers, "zeroValues": zero}
 	viol := func(sig, what, want, got string) {
